@@ -50,6 +50,9 @@ func c08Closure(args []string) *Result {
 			if nExpl > 0 {
 				res.Nontrivial++
 			}
+			if a.Res == "ok" {
+				res.count("implicit-accepted")
+			}
 			if ci == 0 {
 				res.count("all-explicit")
 			} else {
